@@ -75,7 +75,7 @@ Proof. reflexivity. Qed.
 Definition plain_decode (md : dmode) (S : schema) (p : pk) (f : nat) (t : ty) (s : rst) : res (gval * rst) :=
   match md with MSync => gen_decode S p f t s | MAsync => gen_decode_async S p f t s end.
 
-Lemma plain_is_own md S p f t s : plain_decode md S p f t s = fst (own_decode md S p f t s).
+Lemma plain_is_own md S p f t s : plain_decode md S p f t s = fst (own_decode md [] S p f t s).
 Proof. destruct md; cbn [plain_decode]; [rewrite own_proj_sync|rewrite own_proj_async]; reflexivity. Qed.
 
 Lemma m_bytes_erase md p s a : fst (m_bytes_alloc md p s a) = m_bytes md p s.
@@ -195,7 +195,7 @@ Section EraseLoops.
 End EraseLoops.
 
 Theorem alloc_erase_own md kb S p : forall f t s a,
-  fst (alloc_decode md kb S p f t s a) = fst (own_decode md S p f t s).
+  fst (alloc_decode md kb S p f t s a) = fst (own_decode md [] S p f t s).
 Proof.
   induction f as [|f IH]; intros t s a; [reflexivity|].
   rewrite alloc_decode_S, own_decode_S.
@@ -206,7 +206,7 @@ Proof.
     rewrite fst_abind. cbn [alift fst snd]. destruct (m_struct_end md p s1) as [[u2 s2]| |]; reflexivity.
   - unfold obind. rewrite fst_abind, fst_obind_leak. cbn [alift lift fst snd].
     destruct (m_coll_begin md p s) as [[h s1]| |]; cbn [bind]; auto.
-    rewrite fst_amap, fst_obind_leak, (al_elems_erase _ _ IH (is_sync md && owns_heap S et)).
+    rewrite fst_amap, fst_obind_leak, (al_elems_erase _ _ IH (is_sync md && owns_heap [] S et)).
     destruct (fst (own_elems _ _ _ et (snd h) s1 [])) as [[l s2]| |]; reflexivity.
   - unfold obind. rewrite fst_abind, fst_obind_leak. cbn [alift lift fst snd].
     destruct (m_coll_begin md p s) as [[h s1]| |]; cbn [bind]; auto.
@@ -1147,7 +1147,7 @@ Section EraseKeepLoops.
 End EraseKeepLoops.
 
 Theorem alloc_erase_keep_own S p : forall f t s a,
-  fst (alloc_decode_keep S p f t s a) = fst (own_decode_keep S p f t s).
+  fst (alloc_decode_keep S p f t s a) = fst (own_decode_keep [] S p f t s).
 Proof.
   induction f as [|f IH]; intros t s a; [reflexivity|].
   rewrite alloc_decode_keep_S, own_decode_keep_S.
@@ -1158,7 +1158,7 @@ Proof.
     rewrite fst_abind. cbn [alift fst snd]. destruct (r_struct_end p s1) as [[u2 s2]| |]; reflexivity.
   - unfold obind. rewrite fst_abind, fst_obind_leak. cbn [alift lift fst snd].
     destruct (r_coll_begin p s) as [[h s1]| |]; cbn [bind]; auto.
-    rewrite fst_amap, fst_obind_leak, (al_elems_erase _ _ IH (owns_heap_keep S et)).
+    rewrite fst_amap, fst_obind_leak, (al_elems_erase _ _ IH (owns_heap_keep [] S et)).
     destruct (fst (own_elems _ _ _ et (snd h) s1 [])) as [[l s2]| |]; reflexivity.
   - unfold obind. rewrite fst_abind, fst_obind_leak. cbn [alift lift fst snd].
     destruct (r_coll_begin p s) as [[h s1]| |]; cbn [bind]; auto.
